@@ -9,7 +9,7 @@ use crate::{
     },
     codec::*,
     core::{
-        base_types::{NonZero, QoS},
+        base_types::{NonZero, QoS, VarSizeInt},
         utils::{Encode, SizedPacket},
     },
     PublishData, SubscriptionOpts,
@@ -74,6 +74,27 @@ impl ContextHandle {
             let packet_id = self.packet_id.fetch_add(1, Ordering::Relaxed);
             if packet_id != 0 {
                 return packet_id;
+            }
+        }
+    }
+
+    /// Allocates the next subscription identifier. The counter wraps around within
+    /// the range of a variable byte integer, zero is not a valid identifier.
+    fn next_sub_id(&self) -> u32 {
+        const MAX: u32 = VarSizeInt::MAX as u32;
+
+        let mut current = self.sub_id.load(Ordering::Relaxed);
+        loop {
+            let sub_id = if (1..=MAX).contains(&current) { current } else { 1 };
+            let next = if sub_id == MAX { 1 } else { sub_id + 1 };
+            match self.sub_id.compare_exchange_weak(
+                current,
+                next,
+                Ordering::Relaxed,
+                Ordering::Relaxed,
+            ) {
+                Ok(_) => return sub_id,
+                Err(seen) => current = seen,
             }
         }
     }
@@ -287,7 +308,7 @@ impl ContextHandle {
 
         let packet = opts
             .packet_identifier(self.next_packet_id())
-            .subscription_identifier(self.sub_id.fetch_add(1, Ordering::Relaxed))
+            .subscription_identifier(self.next_sub_id())
             .build()?;
 
         let subscription_identifier = NonZero::from(packet.subscription_identifier.unwrap())
